@@ -2,6 +2,7 @@ import Oracle.Util
 import Wz.Model.FdTable
 import Wz.Model.Readdir
 import Wz.Model.RefFS
+import Wz.Model.RefFSTimes
 namespace Oracle.C16
 open Oracle Wz.Model
 
@@ -11,6 +12,7 @@ structure St where
   tab : FdTable.Table Nat := FdTable.Table.empty
   dir : Readdir.Cache := Readdir.Cache.fresh [] 0
   fs : RefFS.FS := RefFS.FS.init false
+  times : RefFS.Times := []     -- mtimes set by the guest and still valid (Wz.Model.RefFSTimes)
 
 def init : St := {}
 
@@ -31,7 +33,7 @@ def comps (p : String) : List String :=
 
 def errS (e : RefFS.E) : String := e.name
 
-def step (st : St) (args : List String) : St × String :=
+def step0 (st : St) (args : List String) : St × String :=
   match args with
   -- descriptor.Table
   | ["t.new"] => ({ st with tab := FdTable.Table.empty }, "ok")
@@ -166,5 +168,37 @@ def step (st : St) (args : List String) : St × String :=
     (st, if l.isEmpty then "-" else ",".intercalate (l.map (fun e =>
       if e.2.1 then "d:" ++ e.1 else "f:" ++ e.1 ++ ":" ++ bytesToHex e.2.2)))
   | _ => (st, "bad-op")
+
+/-- ops of the reference file system that leave every time stamp alone -/
+def keepsTimes : List String :=
+  ["f.close", "f.renumber", "f.read", "f.pread", "f.seek", "f.tell", "f.fstat", "f.pstat", "f.ls", "f.tree"]
+
+def mtimeS : RefFS.E × Option Nat → String
+  | (.ok, some t) => s!"ESUCCESS {t}"
+  | (.ok, none) => "ESUCCESS ?"
+  | (e, _) => errS e
+
+def step (st : St) (args : List String) : St × String :=
+  match args with
+  | ["f.settimes", fd, t] =>
+    match parseInt fd, parseNat t with
+    | some fd, some t => let r := st.fs.fdSetTimes st.times fd t; ({ st with times := r.1 }, errS r.2)
+    | _, _ => (st, "bad-op")
+  | ["f.mtime", fd] =>
+    match parseInt fd with
+    | some fd => (st, mtimeS (st.fs.fdMtime st.times fd))
+    | none => (st, "bad-op")
+  | ["f.psettimes", dfd, p, t] =>
+    match parseInt dfd, parseNat t with
+    | some dfd, some t => let r := st.fs.pathSetTimes st.times dfd (comps p) t; ({ st with times := r.1 }, errS r.2)
+    | _, _ => (st, "bad-op")
+  | ["f.pmtime", dfd, p] =>
+    match parseInt dfd with
+    | some dfd => (st, mtimeS (st.fs.pathMtime st.times dfd (comps p)))
+    | none => (st, "bad-op")
+  | op :: _ =>
+    let r := step0 st args
+    if op.startsWith "f." && !keepsTimes.contains op then ({ r.1 with times := [] }, r.2) else r
+  | [] => step0 st args
 
 end Oracle.C16
